@@ -166,83 +166,109 @@ Definition CL_LIFE := 4. Definition CL_RESTORE := 5. Definition CL_LIMIT := 6.
 Definition first_bad (cl : Z) (l : list (Z * bool)) : list Z :=
   match find (fun x => negb (snd x)) l with Some (k, _) => [cl; k] | None => [] end.
 
-Definition mon_step (c : cfg) (m : mon) (e : ev) : mon * list Z :=
+(* the pieces of one monitored event (same names as in the comments above) *)
+Definition ev_ob (e : ev) (i : nat) : Z := nth i (e_obs e) 0.
+
+Definition m_h1 (m : mon) (e : ev) : Z -> option hres :=
+  expire_held (m_closed m) (m_held m) (m_now m) (e_t e).
+
+Definition granted_to (e : ev) (p : Z) : bool :=
+  match e_op e with
+  | OReserve q _ _ _ => (q =? p) && (ev_ob e 1 =? 1)
+  | _ => false
+  end.
+
+(* the operation: new table of reservations, circuits, closed flag, diagnostics *)
+Definition m_op (c : cfg) (m : mon) (e : ev) : (Z -> option hres) * list mcirc * bool * list Z :=
   let sn := e_snap e in
   let t := e_t e in
-  let ob := fun i => nth i (e_obs e) 0 in
-  let h1 := expire_held (m_closed m) (m_held m) (m_now m) t in
-  (* --- the operation --- *)
-  let '(h2, mcs, closed, d_op) :=
-    match e_op e with
-    | OReserve p k acl inj =>
+  let h1 := m_h1 m e in
+  match e_op e with
+  | OReserve p k acl inj =>
+      let a := addr_of c p k in
+      let granted := ev_ob e 1 =? 1 in
+      let d := if (ev_ob e 0 =? ST_OK) && negb (granted && (ev_ob e 3 =? 1) && (ev_ob e 4 =? 1) && (ev_ob e 5 =? p))
+               then [CL_VOUCHER; p] else [] in
+      let rexp := ps_rexp (ps_at sn p) in
+      (if granted then upd h1 p (if rexp <? 0 then None else Some (mkH rexp (a_ip a) (a_asn a) (a_relayed a)))
+       else h1, m_circs m, m_closed m, d)
+  | OConnect src sa dst acl dm sm dc =>
+      let ok := (ev_ob e 0 =? ST_OK) || (ev_ob e 1 =? ST_OK) in
+      let cond :=
+        match h1 dst with Some r => negb (h_rel r) | None => false end &&
+        negb (a_relayed (addr_of c src sa)) && acl &&
+        (mcount c (m_circs m) (m_last m) t src <? c_maxcirc c) &&
+        (mcount c (m_circs m) (m_last m) t dst <? c_maxcirc c) in
+      (h1, if ok && (0 <? ev_ob e 2) then m_circs m ++ [mkMc (ev_ob e 2) src dst t (sn_t sn)] else m_circs m,
+       m_closed m, if ok && negb cond then [CL_CONNECT; dst] else [])
+  | OCloseRelay => (fun _ => None, m_circs m, true, [])
+  | _ => (h1, m_circs m, m_closed m, [])
+  end.
+
+(* a peer without connection holds no reservation; collections up to the snapshot *)
+Definition m_h3 (m : mon) (e : ev) (h2 : Z -> option hres) : Z -> option hres :=
+  fun p => if ps_connected (ps_at (e_snap e) p) then h2 p
+           else if m_conn m p || granted_to e p then None else h2 p.
+
+Definition m_h4 (m : mon) (e : ev) (closed : bool) (h2 : Z -> option hres) : Z -> option hres :=
+  expire_held closed (m_h3 m e h2) (e_t e) (sn_t (e_snap e)).
+
+Definition d_life (c : cfg) (sn : snap) (h4 : Z -> option hres) : list Z :=
+  first_bad CL_LIFE
+    (map (fun p => (p, (ps_rexp (ps_at sn p) <? 0) || match h4 p with Some _ => true | None => false end)) (peers_of c)).
+
+Definition d_caps (c : cfg) (e : ev) (h4 : Z -> option hres) : list Z :=
+  let sn := e_snap e in
+  match e_op e with
+  | OReserve p k acl inj =>
+      if ev_ob e 1 =? 1 then
         let a := addr_of c p k in
-        let granted := ob 1%nat =? 1 in
-        let d := if (ob 0%nat =? ST_OK) && negb (granted && (ob 3%nat =? 1) && (ob 4%nat =? 1) && (ob 5%nat =? p))
-                 then [CL_VOUCHER; p] else [] in
-        let rexp := ps_rexp (ps_at sn p) in
-        (if granted then upd h1 p (if rexp <? 0 then None else Some (mkH rexp (a_ip a) (a_asn a) (a_relayed a)))
-         else h1, m_circs m, m_closed m, d)
-    | OConnect src sa dst acl dm sm dc =>
-        let ok := (ob 0%nat =? ST_OK) || (ob 1%nat =? ST_OK) in
-        let cond :=
-          match h1 dst with Some r => negb (h_rel r) | None => false end &&
-          negb (a_relayed (addr_of c src sa)) && acl &&
-          (mcount c (m_circs m) (m_last m) t src <? c_maxcirc c) &&
-          (mcount c (m_circs m) (m_last m) t dst <? c_maxcirc c) in
-        (h1, if ok && (0 <? ob 2%nat) then m_circs m ++ [mkMc (ob 2%nat) src dst t (sn_t sn)] else m_circs m,
-         m_closed m, if ok && negb cond then [CL_CONNECT; dst] else [])
-    | OCloseRelay => (fun _ => None, m_circs m, true, [])
-    | _ => (h1, m_circs m, m_closed m, [])
-    end in
-  (* --- a peer without connection holds no reservation; collections up to the snapshot --- *)
-  let granted_to := fun p => match e_op e with
-                             | OReserve q _ _ _ => (q =? p) && (ob 1%nat =? 1)
-                             | _ => false end in
-  let h3 := fun p => if ps_connected (ps_at sn p) then h2 p
-                     else if m_conn m p || granted_to p then None else h2 p in
-  let h4 := expire_held closed h3 t (sn_t sn) in
-  (* --- the snapshot --- *)
-  let d_life := first_bad CL_LIFE
-      (map (fun p => (p, (ps_rexp (ps_at sn p) <? 0) || match h4 p with Some _ => true | None => false end)) (peers_of c)) in
-  let d_caps :=
-    match e_op e with
-    | OReserve p k acl inj =>
-        if ob 1%nat =? 1 then
-          let a := addr_of c p k in
-          let live := fun r : hres => sn_t sn <=? h_exp r in
-          if (count_held c h4 live <=? c_maxrsvp c) &&
-             (count_held c h4 (fun r => live r && (h_ip r =? a_ip a)) <=? c_maxip c) &&
-             ((a_asn a =? 0) || (count_held c h4 (fun r => live r && (h_asn r =? a_asn a)) <=? c_maxasn c))
-          then [] else [CL_CAPS; p]
-        else []
-    | _ => []
-    end in
+        let live := fun r : hres => sn_t sn <=? h_exp r in
+        if (count_held c h4 live <=? c_maxrsvp c) &&
+           (count_held c h4 (fun r => live r && (h_ip r =? a_ip a)) <=? c_maxip c) &&
+           ((a_asn a =? 0) || (count_held c h4 (fun r => live r && (h_asn r =? a_asn a)) <=? c_maxasn c))
+        then [] else [CL_CAPS; p]
+      else []
+  | _ => []
+  end.
+
+Definition d_rest (c : cfg) (sn : snap) (mcs : list mcirc) (closed : bool) : list Z :=
   let nalive := zlength (filter cs_alive (sn_circs sn)) in
-  let d_rest := first_bad CL_RESTORE
-      (map (fun p => let x := ps_at sn p in
-                     (p, (ps_conns x =? mcount_now mcs (sn_circs sn) p) &&
-                         ((0 <? ps_conns x) || negb (ps_htag x)) &&
-                         ((0 <=? ps_rexp x) || negb (ps_rtag x)))) (peers_of c)
-       ++ [(0, closed || (sn_mem sn =? 2 * c_buf c * nalive))]) in
-  let d_lim := first_bad CL_LIMIT
-      (map (fun x => (cs_id x,
-          (negb (c_limited c) || ((cs_rxab x <=? c_limdata c) && (cs_rxba x <=? c_limdata c))) &&
-          (negb (cs_alive x) || negb (c_limited c) ||
-           match find (fun y => mc_id y =? cs_id x) mcs with
-           | Some y => sn_t sn <? mc_t1 y + c_limdur c
-           | None => false end))) (sn_circs sn)) in
-  (* after a lifecycle failure the monitor adopts what it saw, so that one defect is
-     reported once and later events of the same history are still judged *)
-  let h5 := fun p => match h4 p with
-                     | Some r => Some r
-                     | None => let x := ps_at sn p in
-                               if 0 <=? ps_rexp x
-                               then match h2 p with
-                                    | Some r => Some r      (* the entry just dropped: right address class *)
-                                    | None => Some (mkH (ps_rexp x) (a_ip (addr_of c p 0)) (a_asn (addr_of c p 0)) false)
-                                    end
-                               else None end in
-  (mkMon h5 mcs (sn_circs sn) (fun p => ps_connected (ps_at sn p)) (sn_t sn) closed, d_op ++ d_life ++ d_caps ++ d_rest ++ d_lim).
+  first_bad CL_RESTORE
+    (map (fun p => let x := ps_at sn p in
+                   (p, (ps_conns x =? mcount_now mcs (sn_circs sn) p) &&
+                       ((0 <? ps_conns x) || negb (ps_htag x)) &&
+                       ((0 <=? ps_rexp x) || negb (ps_rtag x)))) (peers_of c)
+     ++ [(0, closed || (sn_mem sn =? 2 * c_buf c * nalive))]).
+
+Definition d_lim (c : cfg) (sn : snap) (mcs : list mcirc) : list Z :=
+  first_bad CL_LIMIT
+    (map (fun x => (cs_id x,
+        (negb (c_limited c) || ((cs_rxab x <=? c_limdata c) && (cs_rxba x <=? c_limdata c))) &&
+        (negb (cs_alive x) || negb (c_limited c) ||
+         match find (fun y => mc_id y =? cs_id x) mcs with
+         | Some y => sn_t sn <? mc_t1 y + c_limdur c
+         | None => false end))) (sn_circs sn)).
+
+(* after a lifecycle failure the monitor adopts what it saw, so that one defect is
+   reported once and later events of the same history are still judged *)
+Definition m_h5 (c : cfg) (sn : snap) (h2 h4 : Z -> option hres) : Z -> option hres :=
+  fun p => match h4 p with
+           | Some r => Some r
+           | None => let x := ps_at sn p in
+                     if 0 <=? ps_rexp x
+                     then match h2 p with
+                          | Some r => Some r      (* the entry just dropped: right address class *)
+                          | None => Some (mkH (ps_rexp x) (a_ip (addr_of c p 0)) (a_asn (addr_of c p 0)) false)
+                          end
+                     else None end.
+
+Definition mon_step (c : cfg) (m : mon) (e : ev) : mon * list Z :=
+  let sn := e_snap e in
+  let '(h2, mcs, closed, dop) := m_op c m e in
+  let h4 := m_h4 m e closed h2 in
+  (mkMon (m_h5 c sn h2 h4) mcs (sn_circs sn) (fun p => ps_connected (ps_at sn p)) (sn_t sn) closed,
+   dop ++ d_life c sn h4 ++ d_caps c e h4 ++ d_rest c sn mcs closed ++ d_lim c sn mcs).
 
 (* every failing event contributes  ERR_PROPERTY index clause peer/circuit  (first
    failing clause of that event); [] = the property holds on the whole trace *)
@@ -379,10 +405,24 @@ Definition enc_snap (x : snap) : list Z :=
 
 (* the model replays the operations (with the recorded times and environment
    choices) and must reproduce every observation and every snapshot *)
+(* the hypotheses of the theorems about histories, checked on every recorded event: peers
+   are among 1..n, the clock is monotone, an operation takes >= 1 ms, a time step ends
+   before its snapshot *)
+Definition in_rangeb (c : cfg) (p : Z) : bool := (1 <=? p) && (p <=? c_n c).
+Definition ev_okb (c : cfg) (now : Z) (e : ev) : bool :=
+  (now <=? e_t e) && (e_t e + 1 <=? sn_t (e_snap e)) &&
+  match e_op e with
+  | OOpen p _ | OCloseConn p _ | OReserve p _ _ _ => in_rangeb c p
+  | OConnect src _ dst _ _ _ _ => in_rangeb c src && in_rangeb c dst
+  | OAdvance dt => e_t e + dt <=? sn_t (e_snap e)
+  | _ => true
+  end.
+
 Fixpoint conform_run (c : cfg) (s : st) (i : Z) (tr : list ev) : list Z :=
   match tr with
   | [] => []
   | e :: r =>
+      if negb (ev_okb c (s_now s) e) then [ERR_MALFORMED; i; 7] else
       let '(s', obs) := step c s (e_t e) (e_op e) (sn_t (e_snap e)) in
       if negb (zlist_eqb obs (e_obs e)) then ERR_MISMATCH :: i :: 1 :: first_diff 0 obs (e_obs e)
       else if negb (snap_eqb (snap_of c s') (e_snap e))
